@@ -89,6 +89,12 @@ pub fn judge_sample<F: Fl>(spec: &Spec, confs: &[(Kind, f64)], case: &dyn Fn() -
                 let sl: &[F] = &data[..];
                 let arr: Vec<F> = sl.to_vec();
                 styles.push(("Arithmetic::ci(Vec copy)", call(|| Arithmetic::<F>::ci(c, &arr)).map(|i| F::obs(&i))));
+                // the same sample behind user-defined views whose iterators do not announce their length
+                let lazy = crate::lazy::Lazy(arr.clone());
+                let head = crate::lazy::HeadKnown(arr, n / 2);
+                styles.push(("Arithmetic::ci(view of unknown length)", call(|| Arithmetic::<F>::ci(c, &lazy)).map(|i| F::obs(&i))));
+                styles.push(("MeanCI::ci(view announcing half its length)", call(|| <Arithmetic<F> as MeanCI<F>>::ci(c, &head)).map(|i| F::obs(&i))));
+                styles.push(("from_iter(view of unknown length)+ci_mean", call(|| Arithmetic::<F>::from_iter(&lazy).and_then(|s| s.ci_mean(c))).map(|i| F::obs(&i))));
             }
         }
         for (name, o) in styles.iter() {
